@@ -654,7 +654,8 @@ void register_all()
                     c.ops = std::move(ops);
                     return c;
                 });
-                rc_campaign<Case>(inst, tier(1500, 60000), 60, g, run);
+                const char * n = getenv("VERIF_C12_RANDOM");   // C15 runs this harness in several builds with its own budget
+                rc_campaign<Case>(inst, n ? atoi(n) : tier(1500, 60000), 60, g, run);
             },
             [](const json & j) { return run(Case::from_json(j)); }
         );
